@@ -87,8 +87,12 @@ ResyncOK(win, ba, bb) ==
                  IN {x \in sa : x >= m} = {x \in sb : x >= m}
 PairEv ==
   /\ l <= Len(Rec) /\ Ev.ev = "pair" /\ l' = l + 1
-  /\ IF ResyncOK(Ev.w, Ev.ba, Ev.bb) THEN nok' = nok + 1 /\ UNCHANGED <<verdicts, nverdicts>>
-     ELSE Flag("C10 RESYNC: chunking of the common data differs after a common boundary") /\ UNCHANGED nok
+  /\ IF ~ResyncOK(Ev.w, Ev.ba, Ev.bb) THEN Flag("C10 RESYNC: chunking of the common data differs after a common boundary") /\ UNCHANGED nok
+     \* "free" pairs: no minimum, the maximum beyond the stream - a chunk's start has no say, every boundary is a trigger position of its own window: the
+     \* premise "both place a boundary at the same position" needs no luck here, the boundaries of the common data one window past its start must be the same set
+     ELSE IF "free" \in DOMAIN Ev /\ Ev.free /\ {Ev.ba[i] : i \in {j \in 1..Len(Ev.ba) : Ev.ba[j] > Ev.w + 1}} # {Ev.bb[i] : i \in {j \in 1..Len(Ev.bb) : Ev.bb[j] > Ev.w + 1}}
+          THEN Flag("C10 RESYNC: with neither minimum nor maximum in play the boundaries of the common data, one window past its start, differ between the two streams") /\ UNCHANGED nok
+     ELSE nok' = nok + 1 /\ UNCHANGED <<verdicts, nverdicts>>
   /\ UNCHANGED <<alg, w, hT, hF>>
 PairsEv ==
   /\ l <= Len(Rec) /\ Ev.ev = "pairs" /\ l' = l + 1
@@ -109,7 +113,19 @@ HugePairEv ==
           ELSE Flag("C10 RESYNC: chunking of the common data differs after a common boundary (stream beyond 2^32 bytes)") /\ UNCHANGED nok
   /\ UNCHANGED <<alg, w, hT, hF>>
 
-TNext == Scenario \/ RunEv \/ BigEv \/ PairEv \/ PairsEv \/ HugePairEv
+\* C09's rule at filter widths no small scope reaches (17 - 24 bits), still without interpreting the hash: with min = 0 and max beyond the stream every
+\* boundary is a trigger position, and whether a position triggers may depend on the w bytes before it only.  The harness changes bytes OUTSIDE the
+\* windows of the boundaries it found (in particular the byte that has just left each window) and counts the boundaries whose untouched window no
+\* longer triggers (lost) and the new ones at untouched windows (spurious).
+LocalityEv ==
+  /\ l <= Len(Rec) /\ Ev.ev = "locality" /\ l' = l + 1
+  /\ IF ~Ev.concat_ok THEN Flag("C09 TILING: chunks do not tile the stream") /\ UNCHANGED nok
+     ELSE IF Ev.lost > 0 \/ Ev.spurious > 0
+          THEN Flag("C09 RULE: a boundary depends on bytes outside the trailing window (boundaries came or went although their window was left untouched)") /\ UNCHANGED nok
+     ELSE nok' = nok + 1 /\ UNCHANGED <<verdicts, nverdicts>>
+  /\ UNCHANGED <<alg, w, hT, hF>>
+
+TNext == Scenario \/ RunEv \/ BigEv \/ PairEv \/ PairsEv \/ HugePairEv \/ LocalityEv
 TSpec == TInit /\ [][TNext]_vars
 
 Accepted == IF TLCGet("stats").diameter - 1 = Len(Rec) THEN TRUE
